@@ -1125,6 +1125,18 @@ def __rootStartTag(xmlpart, start):
         i += 1
     return begin, n
 
+def __isOpenDocumentPart(xmlpart):
+    """
+    tells whether the root element of an XML text is one of OpenDocument's
+    (office:document-content ...). The content.xml of a formula object is
+    plain MathML in most producers
+    @param xmlpart unicode string: some XML code
+    @return True or False
+    """
+    begin, end = __rootStartTag(xmlpart, __endOfDoctype(xmlpart))
+    return re.match(u'<([^ \t\r\n:/>]*:)?document(-content|-styles|-meta|-settings)?[ \t\r\n/>]',
+                    xmlpart[begin:end+1]) is not None
+
 def __fixXmlPart(xmlpart):
     """
     fixes an xml code when it does not contain a set of requested
@@ -1200,6 +1212,16 @@ def load(odffile):
     manifestpart = z.read('META-INF/manifest.xml')
     manifest =  manifestlist(manifestpart)
     __loadxmlparts(z, manifest, doc, u'')
+    # the folders of embedded objects that are not OpenDocument documents:
+    # they are carried over as they are
+    foreign = set()
+    for mentry in manifest:
+        if mentry[:7] == u"Object " and mentry[-12:] == u"/content.xml":
+            try:
+                if not __isOpenDocumentPart(z.read(mentry).decode("utf-8")):
+                    foreign.add(mentry[:-11])
+            except (KeyError, UnicodeDecodeError):
+                pass
     for mentry,mvalue in manifest.items():
         if mentry[:9] == u"Pictures/" and len(mentry) > 9:
             doc.addPicture(mvalue['full-path'], mvalue['media-type'], z.read(mentry))
@@ -1214,7 +1236,7 @@ def load(odffile):
         elif mentry in (u"/", u"Thumbnails/"):
             pass # these entries are written by save() itself
         # Load subobjects into structure
-        elif mentry[:7] == u"Object " and mentry[-1] == u"/" and \
+        elif mentry[:7] == u"Object " and mentry[-1] == u"/" and mentry not in foreign and \
                 (mentry + u"content.xml" in manifest or mentry + u"styles.xml" in manifest):
             # an embedded object: whatever its number, at any nesting depth
             subdoc = OpenDocument(mvalue['media-type'], add_generator=False)
@@ -1222,7 +1244,8 @@ def load(odffile):
             __loadxmlparts(z, manifest, subdoc, mentry)
         elif mentry[:7] == u"Object " and u"/" in mentry and \
                 mentry.rsplit(u"/", 1)[1] in (u'settings.xml', u'meta.xml', u'content.xml', u'styles.xml') and \
-                mentry.rsplit(u"/", 1)[0] + u"/" in manifest:
+                mentry.rsplit(u"/", 1)[0] + u"/" in manifest and \
+                mentry.rsplit(u"/", 1)[0] + u"/" not in foreign:
             pass # the XML parts of an embedded object are loaded with the object
         else:
             if mvalue['full-path'][-1] == u'/':
